@@ -7,10 +7,41 @@ namespace sim {
 
 static std::string mixc(Rng &r, std::string s) { for (auto &c : s) if (r.chance(0.25)) c = (char)toupper((unsigned char)c); return s; }
 
+// the passwd leg: qmail-pw2u builds the assignment table from a passwd file "by the same rules as qmail-getpw"
+static bool gen_c11_pw2u(Rng &r, Plan &p) {
+  p.knobs.set("mode", "pw2u").set("oracles", oracle_list({"c11"})).set("split_p", r.pick(std::vector<double>{0.0, 0.5})).set("stick", 1.0);
+  struct U { const char *n; const char *uid; const char *home; int home_uid; bool exists; };
+  static const U us[] = {{"root", "0", "/root", 0, true}, {"joe", "507", "/home/joe", 507, true}, {"bill", "508", "/home/bill", 508, true}, {"ann", "509", "/home/ann", 0, true} /* home owned by root */,
+                         {"ghost", "510", "/home/ghost", 510, false} /* no home */, {"toor", "00", "/root2", 0, true}, {"Mixed", "512", "/home/mixed", 512, true}, {"eve", "513", "/home/eve", 513, true},
+                         {"carl", "514", "/home/carl", 515, true} /* somebody else's home */, {"big", "4294967296", "/home/big", 0, true} /* zero as a 32-bit uid */, {"dan", "516x", "/home/dan", 516, true}};
+  Json pw = Json::arr(); std::string text; std::vector<std::string> present;
+  pw.push(Json::obj().set("name", "alias").set("uid", 7790).set("gid", 2108).set("home", "/var/qmail/alias").set("home_uid", 7790).set("home_exists", true));
+  bool alias_line = !r.chance(0.05);
+  for (auto &u : us) if (r.chance(0.7)) { pw.push(Json::obj().set("name", u.n).set("uid", (long long)strtoul(u.uid, 0, 10)).set("gid", 100).set("home", u.home).set("home_uid", u.home_uid).set("home_exists", u.exists)); text += std::string(u.n) + ":x:" + u.uid + ":100:" + (r.chance(0.5) ? "Some Name" : "") + ":" + u.home + ":/bin/sh\n"; present.push_back(u.n); if (alias_line && r.chance(0.3)) { text += "alias:*:7790:2108::/var/qmail/alias:/bin/true\n"; alias_line = false; } }
+  if (alias_line) text += "alias:*:7790:2108::/var/qmail/alias:/bin/true\n";
+  if (r.chance(0.2)) text += r.pick(std::vector<std::string>{"short:x:600\n", "\n", "nocolonatall\n", "six:x:601:100::/home/six\n", std::string("nul\0l:x:602:100::/home/joe:/bin/sh\n", 34)});
+  if (r.chance(0.15) && !text.empty()) text.pop_back();   // last line without its newline
+  p.knobs.set("passwd", pw);
+  Json pj = Json::obj(); pj.set("passwd_text", text);
+  Json args = Json::arr(); if (r.chance(0.5)) { int na = (int)r.range(1, 2); for (int q = 0; q < na; q++) args.push(r.pick(std::vector<std::string>{"-o", "-h", "-H", "-u", "-U", "-C", "-c+", "-c.", "-/"})); } pj.set("args", args);
+  auto some = [&](double pr) { std::string l; for (auto &n : present) if (r.chance(pr)) l += n + "\n"; if (r.chance(0.3)) l += "alias\n"; if (r.chance(0.2)) l += "nobody\n"; return l; };
+  if (r.chance(0.25)) pj.set("include", some(0.7) + "alias\n");
+  if (r.chance(0.3)) pj.set("exclude", some(0.3));
+  if (r.chance(0.3) && !present.empty()) { std::string m; int n = (int)r.range(1, 2); for (int q = 0; q < n; q++) { std::string u = r.pick(present); m += u + ":" + r.pick(std::vector<std::string>{u + ":" + u + ".alt", "first.last", "x::y", ""}) + "\n"; } pj.set("mailnames", m); }
+  // subusers may name any account of the file, also those the rules skip: then there is no such user as far as the table goes
+  if (r.chance(0.45) && !present.empty()) { std::string su; int n = (int)r.range(1, 3); for (int q = 0; q < n; q++) su += r.pick(std::vector<std::string>{"sub", "list", "adm", "helpdesk"}) + std::to_string(q) + ":" + (r.chance(0.85) ? r.pick(present) : std::string("nosuch")) + ":" + r.pick(std::vector<std::string>{"pre", "", "a-b"}) + ":\n"; if (r.chance(0.1)) su += "malformed:line\n"; pj.set("subusers", su); }
+  if (r.chance(0.2)) pj.set("append", "+extra-:joe:507:100:/home/joe:-:x:\n=root:alias:7790:2108:/var/qmail/alias:-:root:\n");
+  p.knobs.set("pw2u", pj);
+  if (r.chance(0.1)) { Fault f; f.actor = "qmail-pw2u"; f.call = r.pick(std::vector<CallId>{C_STAT, C_READ, C_OPEN, C_MALLOC, C_WRITE}); f.nth = (int)r.range(1, 6); f.kind = f.call == C_MALLOC ? "null" : "error"; f.err = r.pick(std::vector<int>{EIO, ENOMEM, EACCES}); p.faults.push_back(f); }
+  p.label = "qmail-pw2u over " + std::to_string(present.size()) + " accounts" + (pj.has("subusers") ? " +subusers" : "") + (pj.has("include") ? " +include" : "") + (pj.has("exclude") ? " +exclude" : "") + (pj.has("mailnames") ? " +mailnames" : "");
+  return true;
+}
+
 static bool gen_c11(uint64_t seed, const std::string &tier, uint64_t i, Plan &p) {
   (void)tier;
   p = Plan(); p.property = "C11"; p.world = "H"; p.seed = mix64(mix64(seed, 0xC11), i);
   Rng r(p.seed);
+  if (i % 8 == 2) return gen_c11_pw2u(r, p);
   p.knobs.set("mode", "lspawn").set("oracles", oracle_list({"c11"})).set("split_p", r.pick(std::vector<double>{0.0, 0.5})).set("stick", r.pick(std::vector<double>{0.5, 1.0})).set("pipe_buf", 512);
   // passwd
   Json pw = Json::arr();
@@ -72,7 +103,7 @@ static bool gen_c11(uint64_t seed, const std::string &tier, uint64_t i, Plan &p)
 static RegisterProperty reg_c11(PropertyDef{
     "C11", "H", "exploration", "deterministic simulation: users/assign tables compiled by the real qmail-newu, passwd tables and home ownership in the simulated kernel, real qmail-lspawn + qmail-getpw; identity, argv, group list and the order of setgroups/setgid/setuid observed at the exec of qmail-local and compared with a reference of qmail-users(5)/qmail-getpw(8) over the source table; lookup faults injected", gen_c11,
     "plan i = f(VERIF_SEED, i): passwd subsets (owner/non-owner/missing homes, uid 0, mixed-case and >32-byte names, names containing the break character), 70% with a users/assign of 0-6 simple/wildcard entries (duplicates, overlapping prefixes, mixed case, uid 0, empty wildcard, optional catch-all, malformed or unterminated tables); 1-4 commands for table names and near-misses (extensions, case changes, prefixes, leading/trailing break); "
-    "one in eight plans truncates users/cdb at an 8-byte boundary, one injects a failing read/open/fork/pipe/malloc/setuid/setgid/setgroups into the lookup child, one replaces qmail-getpw by a failing stub. non-trivial = at least one address looked up and judged",
-    {"qmail-lspawn", "qmail-getpw", "qmail-newu"}, {"qmail-local replaced by a recording stub", "hostile-free command feeder"}, q_assume(), "hash of the spawner's output", 2400, 80000});
+    "one in eight plans truncates users/cdb at an 8-byte boundary, one injects a failing read/open/fork/pipe/malloc/setuid/setgid/setgroups into the lookup child, one replaces qmail-getpw by a failing stub, and one runs the real qmail-pw2u instead: a passwd file with root, zero-as-32-bit, foreign-home, homeless, upper-case and malformed accounts, options -o/-h/-H/-u/-U/-C/-cX/-/, users/include, exclude, mailnames, subusers (also of skipped accounts) and append; its table is compared line by line with a reference of qmail-pw2u(8) and no line may name an account the rules skip. non-trivial = at least one address looked up and judged, or one table judged",
+    {"qmail-lspawn", "qmail-getpw", "qmail-newu", "qmail-pw2u"}, {"qmail-local replaced by a recording stub", "hostile-free command feeder"}, q_assume(), "hash of the spawner's output", 2400, 80000});
 
 }  // namespace sim
